@@ -47,7 +47,7 @@ txt = {
  # white space / terminators
  "WS0": "", "WS1": " ", "WS2": " \t", "WSF": "\r\n ", "CRLF": "\r\n", "LFONLY": "\n", "CRONLY": "\r",
  # name-addr parts (GenNameAddr)
- "D_none": "", "D_tok": "Bob", "D_toks": "Bob T. Builder", "D_q": "\"Bob\"", "D_qesc": "\"B \\\" , ; < > o\\\\\"", "D_qempty": "\"\"",
+ "D_none": "", "D_tok": "Bob", "D_toks": "Bob T. Builder", "D_q": "\"Bob\"", "D_qesc": "\"B \\\" , ; < > o\\\\\"", "D_qempty": "\"\"", "D_tokq": "Bob \"the \\\"builder\\\"\"", "D_qq": "\"Bob\" \"x\"",
  "U_sip": "sip:bob@b.example", "U_sips": "sips:a@[::1]:5061", "U_tel": "tel:+1-408", "U_params": "sip:a@b;transport=tcp?h=v", "U_x": "x",
  "P_tag": "tag", "P_TAG": "TaG", "P_expires": "expires", "P_EXPIRES": "EXPIRES", "P_q": "q", "P_Q": "Q", "P_lr": "lr", "P_LR": "LR",
  "P_other": "foo", "P_received": "received", "P_instance": "+sip.instance", "P_x": "x", "P_xlifetime": "x-lifetime", "P_tagx": "tagx", "P_ta": "ta",
